@@ -25,6 +25,9 @@ type Site struct {
 	Classify func(v string, f *Finding) string
 	// NotInSQL documents that the position is expected never to reach a statement.
 	NotInSQL bool
+	// Auto: generated from the request-surface scan for a service method the tables do not know (scan.go); nothing
+	// is known about it, so it is exempt from the site-table self-check.
+	Auto bool
 	// Kind: "regex" (the value is a regular expression), "plain" (a plain string value), "" (identifier, template,
 	// structured value): decides which context templates (quote.go) are applied around the hostile string.
 	Kind string
@@ -55,6 +58,7 @@ func init() {
 	tempoSites()
 	promSites()
 	profSites()
+	autoSites()
 	expandOptions()
 	expandContexts()
 	seen := map[string]bool{}
